@@ -240,7 +240,7 @@ def _has_forwardref_union(res):
     for m in res.get("modules", []):
         for _, p in _walk_plans(m.get("classes", [])):
             for a in p["attrs"]:
-                hit = re.search(r'ForwardRef\("[^"()]+" \| [^)]*\)|ForwardRef\([^")]* \| "[^"]+"[^)]*\)|Type\[[^\]"]* \| "[^"]+"[^\]]*\]',
+                hit = re.search(r'"type": [^,\n]*"[A-Za-z_][\w.]*"[^,\n]* \| [^,\n]*|"type": [^,\n]* \| [^,\n]*"[A-Za-z_][\w.]*"[^,\n]*',
                                 a.get("field_definition") or "")
                 if hit:
                     return hit.group(0)
@@ -289,7 +289,7 @@ def classify_pipeline(job, res, coq):
         elif res["stage"] == "validate_imports" and typ == "TypeError" and "unsupported operand type(s) for |" in msg and _has_forwardref_union(res):
             out.append(("choice-type-forwardref-union", "Filters.choice_type wraps a union that contains a quoted forward reference: "
                         + _has_forwardref_union(res) + " -> " + msg))
-        elif res["stage"] == "validate_imports" and typ in ("TypeError", "NameError", "AttributeError") and _shadowing_classes(res):
+        elif res["stage"] == "validate_imports" and _shadowing_classes(res):
             out.append(("class-name-shadows-import", f"generated class(es) {_shadowing_classes(res)} hide the name the module imports for its "
                         f"own use: {typ}: {msg}"))
         elif res["stage"] == "validate_imports" and typ == "TypeError" and SHADOW_FIELDS & {
@@ -297,6 +297,11 @@ def classify_pipeline(job, res, coq):
             out.append(("field-shadows-builtin-type", f"a field named bytes/tuple/dataclass shadows the name the class body itself uses: {msg}"))
         elif res["stage"] == "validate_imports" and typ == "ValueError" and "invalid enum member name" in msg:
             out.append(("enum-member-reserved-name", msg))
+        elif res["stage"] == "process" and typ == "KeyError" and "utils/graphs.py" in where:
+            out.append(("clusters-dangling-dependency-keyerror", f"strongly_connected_components: KeyError {msg} - a class depends on a qname "
+                        "that is not in the container (structure style clusters / namespace-clusters)"))
+        elif res["stage"] == "write" and typ == "ConverterError" and "field_default_value" in (e.get("traceback") or ""):
+            out.append(("default-value-not-convertible", f"Filters.field_default_value: {msg}"))
         elif res["stage"] == "process" and typ == "KeyError" and "detect_circular_references.py" in where:
             out.append(("internal-keyerror-detect-circular-references", f"KeyError in DetectCircularReferences.is_circular ({where})"))
         else:
@@ -336,16 +341,19 @@ def classify_pipeline(job, res, coq):
                     outer = _find_plan(res, c["module"], c["qualname"].split(".")[0]) or {}
                     ofields = [a.get("field_name") for _, pp in _walk_plans([outer]) for a in pp.get("attrs", [])] if outer else []
                     missing = re.match(r"name '(\w+)' is not defined", err["message"] or "")
-                    mod_fields = {a.get("field_name") for mm in res.get("modules", []) if mm["module"] == c["module"]
+                    # any module of the run: build_recursive walks into the classes of other modules
+                    mod_fields = {a.get("field_name") for mm in res.get("modules", [])
                                   for _, pp in _walk_plans(mm.get("classes", [])) for a in pp.get("attrs", [])}
                     shadow = _shadowing_classes(res)
-                    if shadow and err["type"] in ("TypeError", "NameError", "XmlContextError", "AttributeError"):
+                    if err["type"] == "XmlContextError" and "Compound field contains ambiguous types" in (err["message"] or ""):
+                        out.append(("compound-field-ambiguous-types", f"{c['module']}.{c['qualname']}: {err['message']}"))
+                    elif shadow:
                         out.append(("class-name-shadows-import", f"{c['module']}.{c['qualname']}: generated class(es) {shadow} hide the name the "
                                     f"module imports for its own use: {err['type']}: {err['message']}"))
                     elif err["type"] == "NameError" and missing and _defined_elsewhere(res, None, missing.group(1)):
                         out.append(("cross-module-circular-reference", f"{c['module']}.{c['qualname']}: the annotation names {missing.group(1)}, a class of "
                                     "another generated module that is not imported (circular dependency turned into a bare forward reference)"))
-                    elif err["type"] in ("TypeError", "KeyError", "AttributeError") and (SHADOW_FIELDS & (set(fields + ofields) | mod_fields)):
+                    elif SHADOW_FIELDS & (set(fields + ofields) | mod_fields):
                         out.append(("field-shadows-builtin-type", f"{c['module']}.{c['qualname']}: a field named bytes/tuple shadows the type "
                                     f"used by another annotation or default_factory: {err['message']}"))
                     else:
@@ -387,6 +395,9 @@ def _pref_signature(names, tags):
     for group in slugs.values():
         if len(group) > 1:
             for n, t in group:
+                # namespace variant: "<clean_uri(ns)>_<name>" next to another attr still called <name>
+                if any(m != n and n.endswith("_" + m) for m in names):
+                    return True
                 if (t and n.endswith("_" + t)) or any(n.endswith(sfx) for sfx in PREF_SUFFIX) or re.match(r"^[A-Za-z0-9_.\-]+_[^_]", n) and "_" in n and t in ("Element", "Attribute") and False:
                     return True
     return False
@@ -394,6 +405,7 @@ def _pref_signature(names, tags):
 
 def resolve_pipeline(job, res, prelim, coq):
     out = []
+    payload_qnames = {(res["id"], m["module"]): [p["qname"] for p in m.get("classes", [])] for m in res.get("modules", [])}
     for cls, what in prelim:
         if cls == "?syntax":
             verdicts = coq.ans.get(("names", (res["id"], "syntax")), [])
@@ -436,7 +448,13 @@ def resolve_pipeline(job, res, prelim, coq):
         elif k[0] == "dupclasses":
             conv, names, cnames = payload
             what = f"{k[1][1]}: class names {names} -> {cnames}"
-            if "::" in k[1][1] and code in (1, 2):
+            qn = payload_qnames.get(k[1], [])
+            collide = {}
+            for n, c2, q2 in zip(names, cnames, qn):
+                collide.setdefault(c2, set()).add(q2.split("}")[0] if q2.startswith("{") else "")
+            if "::" not in k[1][1] and code == 1 and any(len(v) > 1 for v in collide.values()):
+                out.append(("dup-class-qname-vs-module", what + "  (same local name, different namespaces, one module)"))
+            elif "::" in k[1][1] and code in (1, 2):
                 out.append(("dup-inner-class", what + "  (inner classes are never renamed apart)"))
             elif code == 2:
                 out.append(("dup-class-safe-adjust", what))
@@ -725,7 +743,8 @@ def run(ck: Check):
         if "err" in it[2]:
             ck.failure("unexpected-exception-" + it[2]["err"], f"RenameDuplicateClasses {it[1]} raised {it[2]}", {"op": it[1], "impl": it[2]})
     items = [it for it in items if "ok" in it[2]]
-    terms = [f"({cbool(it[1]['use_names'])}, {clist(it[1]['classes'], cls_term, 'str * str * bool * bool')}, {lstr(it[2]['ok'])})" for it in items]
+    terms = [f"({cbool(it[1]['use_names'])}, {clist([it[1]['classes'][i] for i in it[2]['order']], cls_term, 'str * str * bool * bool')}, {lstr(it[2]['ok'])})"
+             for it in items]
     for it in items:
         distinct.add(("rename_classes", json.dumps(it[1]["classes"], sort_keys=True), it[1]["use_names"]))
     corr_bad = run_pred("rename_classes", "bool * list (str * str * bool * bool) * list str", "agree_rename_classes", items, terms)
